@@ -37,6 +37,22 @@ reference is the same - independent cells -, so a write to a variable of one
 map that shows in a variable of another map (or in the Dict, or a Dict
 operation that shows in a variable) is an edge that differs from the model.
 
+Dict declarations whose Key / Value Structure classes have ancestors
+(dict_inherit_configs): the class handed to the Dict is the last of a chain
+base class - subclass adding members [- sub-subclass], members of all sizes,
+cut at every place; the program class has only that Dict, or a second Dict
+declared with the base classes before / after it; instances of the base
+classes are made in Python before the library ever instantiates the derived
+ones, or after load().  The layout oracle is the same (what one side stores
+the other finds, member by member, the program addressing the inherited and
+the added members through the Dict's key / value on its stack); the second
+Dict holds one entry that every operation on the first must leave alone and
+that Python (with base class instances) and the program must find.  There
+the universe also holds Structure instances of which only the inherited
+members (or only the first member) were assigned - the rest must be 0 on
+both sides -, and every instance made in Python is read back member by
+member after the operation it was made for.
+
 A second search runs several program instances in one process (two and three
 instances of one program class, two classes built from the same declaration,
 an instance that was close()d next to a later one, an instance created after
@@ -68,7 +84,16 @@ RULE = ("configurations = hash-map variable sets (formats I i Q q B h and, "
         "deletes and lookups of its keys part of the alphabet) "
         "and Dict declarations (packed Structure member lists "
         "over sizes 1/2/4/8 for key and value, plus declarations whose "
-        "members carry their own byte order, size 2/31, lru on/off); per "
+        "members carry their own byte order, size 2/31, lru on/off; plus "
+        "declarations whose Key and / or Value class is the last of an "
+        "inheritance chain of Structure classes - every packed list of 2-3 "
+        "members cut into base class + subclass at every place or into "
+        "three classes - x {only that Dict, a second Dict with the base "
+        "classes declared before / after it} x {base class instances made "
+        "in Python never / before the first derived instance / after "
+        "load()}, keys and values partly assigned (all members / inherited "
+        "members only), Python and program operations on the second Dict "
+        "part of the alphabet, every Python-made instance read back); per "
         "configuration a breadth-first search over operation sequences "
         "(Python operations including collect-then-use iterations: list, "
         "keys, sorted, items, look up / delete / pop every listed key; "
@@ -860,11 +885,88 @@ def dec(fmts, raw):
     return tuple(out)
 
 
+# optional keys of a Dict configuration (see DictCase)
+DICT_EXTRA = ("ksplit", "vsplit", "kbase", "vbase", "other", "pybase")
+OTHER_OPS = ("oset", "oget", "oitems", "odel", "olookup")
+
+
+def dict_cfgj(cfg):
+    """a Dict configuration as it is written into a report"""
+    cj = dict(kind="dict", key=list(cfg["key"]), value=list(cfg["value"]),
+              size=cfg["size"], lru=cfg["lru"])
+    for k in DICT_EXTRA:
+        if cfg.get(k) is not None:
+            cj[k] = list(cfg[k]) if isinstance(cfg[k], tuple) else cfg[k]
+    return cj
+
+
+def dict_cfg_of(c):
+    """... and back"""
+    cfg = dict(key=tuple(c["key"]), value=tuple(c["value"]),
+               size=c["size"], lru=c["lru"])
+    for k in DICT_EXTRA:
+        if c.get(k) is not None:
+            cfg[k] = tuple(c[k]) if isinstance(c[k], list) else c[k]
+    return cfg
+
+
+def structure_chain(name, names, fmts, split):
+    """Structure classes forming an inheritance chain: the first holds the
+    first split[0] members, every further one derives from the one before
+    and adds the next split[i] members; the last one is called `name`"""
+    if sum(split) != len(fmts) or not split or min(split) < 1:
+        raise core.Internal(f"C09: split {split} of {fmts}")
+    chain, cls, i = [], Structure, 0
+    for lvl, n in enumerate(split):
+        cls = type(name if lvl == len(split) - 1 else f"{name}Base{lvl}",
+                   (cls,), {nm: Member(f) for nm, f in
+                            zip(names[i:i + n], fmts[i:i + n])})
+        chain.append(cls)
+        i += n
+    return chain
+
+
+def assign_counts(n, split, which):
+    """how many leading members the instances of the universe get assigned
+    (`which` = 3: keys, 2: values): all of them / only those of the first
+    class of the chain / (keys, chains of three) those of all classes but
+    the last.  A structure without ancestors counts as (1, n - 1)"""
+    ms = tuple(split) if len(split) > 1 else ((1, n - 1) if n > 1 else (n,))
+    out = [n, ms[0], sum(ms[:-1]) if len(ms) > 2 else n]
+    return out[:which]
+
+
 class DictCase:
     """one Dict declaration in a program class.  The packet carries numbers
     in native letters; the program moves them into / out of the key and value
     members with the members' own formats (so a member with its own byte
     order is stored in that order by both sides).
+
+    Optional keys of cfg (any of them makes it a configuration "with
+    ancestors"; DICT_EXTRA):
+    ksplit / vsplit  the Key / Value class is the last of a chain of
+                     Structure classes, each deriving from the one before and
+                     adding that many members ((1, 2): a base class with the
+                     first member, the Dict's class adds two; (1, 1, 1):
+                     base class, subclass, sub-subclass)
+    kbase / vbase    which class of the chain "the base class" is (default
+                     0, the root)
+    other            "before" / "after": the program class also has a second
+                     Dict `ho` (key = the Key base class, value = the Value
+                     base class, 4 entries) declared before / after `ht`.
+                     It holds one entry, put there through Python when the
+                     case is set up and re-established before every edge;
+                     OTHER_OPS act on it (Python set / get / items / delete
+                     with base class instances, a program lookup)
+    pybase           "before" / "after": instances of the base classes are
+                     created (all members assigned and read back) from
+                     Python before the program object exists - so before the
+                     library made its first instance of the derived classes
+                     - or after load()
+    In these configurations the universe holds Structure instances of which
+    only some members were assigned (assign_counts; the others must hold 0),
+    and every instance made in Python for an operation is read back, member
+    by member, after the operation.
 
     sibling_of: build one more instance of that case's program class"""
     OPS_PY = ("pset", "pget", "ppop", "ppopd", "pdel", "piter", "pvalues")
@@ -879,22 +981,57 @@ class DictCase:
         kf, vf = self.kf, self.vf = tuple(cfg["key"]), tuple(cfg["value"])
         self.knames = [f"k{i}" for i in range(len(kf))]
         self.vnames = [f"m{i}" for i in range(len(vf))]
+        self.hier = any(cfg.get(k) is not None for k in DICT_EXTRA)
+        ksplit = tuple(cfg.get("ksplit") or (len(kf),))
+        vsplit = tuple(cfg.get("vsplit") or (len(vf),))
+        self.other, self.pybase = cfg.get("other"), cfg.get("pybase")
+        if self.other not in (None, "before", "after") or \
+                self.pybase not in (None, "before", "after"):
+            raise core.Internal(f"C09: configuration {cfg}")
+        kb = min(cfg.get("kbase") or 0, len(ksplit) - 1)
+        vb = min(cfg.get("vbase") or 0, len(vsplit) - 1)
+        # the base classes' members, their universe (one key, two values)
+        self.okf, self.ovf = kf[:sum(ksplit[:kb + 1])], vf[:sum(vsplit[:vb + 1])]
+        self.oknames = self.knames[:len(self.okf)]
+        self.ovnames = self.vnames[:len(self.ovf)]
+        self.okeys = universe(self.okf, (0,))
+        self.ovalues = universe(self.ovf, (0, 2))
+        self.ofixed = [(enc(self.okf, self.okeys[0]),
+                        enc(self.ovf, self.ovalues[0]))]
+        self.keys = universe(kf, (0, 1, 2))
+        self.values = universe(vf, (0, 2))
+        self.kassign, self.vassign = [len(kf)] * 3, [len(vf)] * 2
+        if self.hier:
+            self.kassign = assign_counts(len(kf), ksplit, 3)
+            self.vassign = assign_counts(len(vf), vsplit, 2)
+            self.keys = [tuple(x if i < c else 0 for i, x in enumerate(t))
+                         for t, c in zip(self.keys, self.kassign)]
+            self.values = [tuple(x if i < c else 0 for i, x in enumerate(t))
+                           for t, c in zip(self.values, self.vassign)]
+        self._made = []
+        self.setup_bad = None
         if sibling_of is None:
-            self.Key = type("Key", (Structure,),
-                            {n: Member(f) for n, f in zip(self.knames, kf)})
-            self.Value = type("Value", (Structure,),
-                              {n: Member(f) for n, f in zip(self.vnames, vf)})
+            kchain = structure_chain("Key", self.knames, kf, ksplit)
+            vchain = structure_chain("Value", self.vnames, vf, vsplit)
+            self.Key, self.Value = kchain[-1], vchain[-1]
+            self.KeyBase, self.ValueBase = kchain[kb], vchain[vb]
+            if self.pybase == "before":
+                self._pybase()
             attrs = {"ht": Dict(key=self.Key, value=self.Value,
                                 size=cfg["size"], lru=cfg["lru"])}
+            if self.other:
+                ho = {"ho": Dict(key=self.KeyBase, value=self.ValueBase,
+                                 size=4, lru=False)}
+                attrs = {**ho, **attrs} if self.other == "before" \
+                    else {**attrs, **ho}
             b = dsl.Builder(attrs, n_in=6, n_out=5, pv_area=HDR)
         else:
-            self.Key, self.Value = sibling_of.Key, sibling_of.Value
+            for k in ("Key", "Value", "KeyBase", "ValueBase"):
+                setattr(self, k, getattr(sibling_of, k))
             b = SiblingBuilder(sibling_of.b, sibling_of.preamble)
         self.b = b
         e = self.e = b.e
         self.preamble = preamble_of(e)
-        self.keys = universe(kf, (0, 1, 2))
-        self.values = universe(vf, (0, 2))
         self.can_add = vf[0][-1] in "IiQq"
         if with_program:
             self.emit()
@@ -902,9 +1039,99 @@ class DictCase:
         e.load()
         self.closed = False
         self.mapfd = e.ht.fd
+        self.otherfd = e.ho.fd if self.other else None
         if isinstance(backend, RealBackend):
             backend.sizes[self.mapfd] = (len(enc(kf, self.keys[0])),
                                          len(enc(vf, self.values[0])))
+            if self.other:
+                backend.sizes[self.otherfd] = tuple(
+                    len(x) for x in self.ofixed[0])
+        if self.pybase == "after" and sibling_of is None:
+            self._pybase()
+        if self.other:
+            # the second Dict's entry goes in through Python
+            try:
+                e.ho[self._okey()] = self._ovalue(0)
+                got = self.other_snapshot()
+                if got != self.ofixed:
+                    self.setup_bad = f"the second Dict holds {got!r}"
+            except Exception as ex:
+                if isinstance(ex, (simkernel.SimTrap, core.Internal)):
+                    raise
+                self.setup_bad = "storing into the second Dict: " \
+                    f"{type(ex).__name__}"
+        self.setup_bad = self.setup_bad or self.instances_bad()
+
+    # ---- Structure instances made in Python
+    def _make(self, cls, names, tup, count=None):
+        """an instance of cls with the first `count` members assigned"""
+        o = cls()
+        for n, v in list(zip(names, tup))[:count]:
+            setattr(o, n, v)
+        self._made.append((o, cls.__name__, tuple(names), tuple(tup)))
+        return o
+
+    def instances_bad(self):
+        """read every instance made since the last call back, member by
+        member: what was assigned, 0 for what was not -> None or what is
+        wrong with the first bad one"""
+        made, self._made = self._made, []
+        for o, cname, names, tup in made:
+            try:
+                got = tuple(getattr(o, n) for n in names)
+            except Exception as ex:
+                if isinstance(ex, (simkernel.SimTrap, core.Internal)):
+                    raise
+                got = "exc:" + type(ex).__name__
+            if got != tup:
+                return (f"a {cname} instance made in Python with the values "
+                        f"{list(tup)} for {list(names)} (0 = never "
+                        f"assigned) reads back as {got!r}")
+        return None
+
+    def _pybase(self):
+        self._make(self.KeyBase, self.oknames, self.okeys[0])
+        self._make(self.ValueBase, self.ovnames, self.ovalues[0])
+
+    def _okey(self):
+        return self._make(self.KeyBase, self.oknames, self.okeys[0])
+
+    def _ovalue(self, v):
+        return self._make(self.ValueBase, self.ovnames, self.ovalues[v])
+
+    def _ovt(self, o):
+        return tuple(getattr(o, n) for n in self.ovnames)
+
+    def _okt(self, o):
+        return tuple(getattr(o, n) for n in self.oknames)
+
+    def other_snapshot(self):
+        return sorted(self.be.snapshot(self.otherfd)) if self.other else []
+
+    def restore_other(self):
+        if self.other:
+            self.be.restore(self.otherfd, self.ofixed)
+
+    def other_expected(self, op):
+        """the second Dict's content after op"""
+        if not self.other or op[0] == "odel":
+            return []
+        if op[0] == "oset":
+            return [(self.ofixed[0][0], enc(self.ovf, self.ovalues[op[1]]))]
+        return list(self.ofixed)
+
+    def other_result(self, op):
+        """reference for OTHER_OPS (the second Dict holds its one entry)"""
+        kind = op[0]
+        if kind in ("oset", "odel"):
+            return ("ok",)
+        if kind == "oget":
+            return ("ok", self.ovalues[0])
+        if kind == "oitems":
+            return ("ok", ((self.okeys[0], self.ovalues[0]),))
+        if kind == "olookup":
+            return ("found", self.ovalues[0])
+        raise core.Internal(f"unknown op {op}")
 
     def emit(self):
         b, e, kf, vf = self.b, self.e, self.kf, self.vf
@@ -943,6 +1170,20 @@ class DictCase:
                     e.mB[e.r9 + (b.out_off + 8)] = 1
                 with Else:
                     e.mB[e.r9 + (b.out_off + 8)] = 2
+        if self.other:
+            o = e.ho
+            with guard(b, 7):
+                for i, (n, f) in enumerate(zip(self.oknames, self.okf)):
+                    setattr(o.key, n, getattr(e, "m" + f[-1])[
+                        e.r9 + (b.in_off + 8 * i)])
+                with o.lookup() as (value, Else):
+                    for i, (n, f) in enumerate(zip(self.ovnames, self.ovf)):
+                        getattr(e, "m" + f[-1])[
+                            e.r9 + (b.out_off + 8 * (2 + i))] = \
+                            getattr(value, n)
+                    e.mB[e.r9 + (b.out_off + 8)] = 1
+                with Else:
+                    e.mB[e.r9 + (b.out_off + 8)] = 2
 
     def close(self):
         """EBPF.close(): the program's descriptor goes, the map stays in use
@@ -962,6 +1203,8 @@ class DictCase:
         for k in range(3):
             out += [("pgetd", k), ("pin", k), ("psetdef", k, k % 2)]
         out += [(c,) for c in self.COLLECT]
+        if self.other:
+            out += [("oset", 1), ("oget",), ("oitems",), ("odel",)]
         if python_only or self.closed:
             return out
         for k in range(3):
@@ -972,6 +1215,8 @@ class DictCase:
             out.append(("modify", k, 1))
             if self.can_add:
                 out.append(("modadd", k))
+        if self.other:
+            out.append(("olookup",))
         return out
 
     def ops_small(self):
@@ -990,19 +1235,16 @@ class DictCase:
     def readonly(op):
         return op[0] in ("pget", "piter", "pvalues", "lookup", "pitems",
                          "pgetd", "pin", "plist", "pkeys", "psorted",
-                         "plitems", "plookupall")
+                         "plitems", "plookupall", "oget", "oitems",
+                         "olookup")
 
     def _key(self, k):
-        o = self.Key()
-        for n, v in zip(self.knames, self.keys[k]):
-            setattr(o, n, v)
-        return o
+        return self._make(self.Key, self.knames, self.keys[k],
+                          self.kassign[k])
 
     def _value(self, v):
-        o = self.Value()
-        for n, x in zip(self.vnames, self.values[v]):
-            setattr(o, n, x)
-        return o
+        return self._make(self.Value, self.vnames, self.values[v],
+                          self.vassign[v])
 
     def _vt(self, o):
         return tuple(getattr(o, n) for n in self.vnames)
@@ -1011,9 +1253,27 @@ class DictCase:
         return tuple(getattr(o, n) for n in self.knames)
 
     def apply(self, op):
+        self._made = []
+        r = self._apply(op)
+        bad = self.instances_bad()
+        return ("instance", bad) if bad else r
+
+    def _apply(self, op):
         d = self.e.ht
         kind = op[0]
         try:
+            if kind == "oset":
+                self.e.ho[self._okey()] = self._ovalue(op[1])
+                return ("ok",)
+            if kind == "oget":
+                return ("ok", self._ovt(self.e.ho[self._okey()]))
+            if kind == "oitems":
+                its = list(self.e.ho.items())
+                return ("ok", tuple(sorted((self._okt(k), self._ovt(v))
+                                           for k, v in its)))
+            if kind == "odel":
+                del self.e.ho[self._okey()]
+                return ("ok",)
             if kind == "pset":
                 d[self._key(op[1])] = self._value(op[2])
                 return ("ok",)
@@ -1081,15 +1341,19 @@ class DictCase:
             return ("exc", type(ex).__name__)
         b = self.b
         pkt = bytearray(b.pkt_len)
-        key = self.keys[op[2] if kind == "upd" else op[1]]
-        for i, (f, v) in enumerate(zip(self.kf, key)):
+        if kind == "olookup":
+            kfs, key, vfs = self.okf, self.okeys[0], self.ovf
+        else:
+            kfs, key, vfs = self.kf, self.keys[
+                op[2] if kind == "upd" else op[1]], self.vf
+        for i, (f, v) in enumerate(zip(kfs, key)):
             struct.pack_into("<" + f[-1], pkt, b.in_off + 8 * i, v)
         if kind in ("upd", "modify"):
             val = self.values[op[3] if kind == "upd" else op[2]]
             for i, (f, v) in enumerate(zip(self.vf, val)):
                 struct.pack_into("<" + f[-1], pkt, b.in_off + 8 * (3 + i), v)
         pkt[SEL] = {"upd": op[1] if kind == "upd" else 0, "lookup": 4,
-                    "modify": 5, "modadd": 6}[kind]
+                    "modify": 5, "modadd": 6, "olookup": 7}[kind]
         try:
             ret, out = self.be.run(self.e.file_descriptor, pkt)
         except simkernel.SimTrap as t:
@@ -1099,11 +1363,11 @@ class DictCase:
         if kind == "upd":
             return ("r0", sx64(struct.unpack_from("<Q", out, b.out_off)[0]))
         flag = out[b.out_off + 8]
-        if kind == "lookup" and flag == 1:
+        if kind in ("lookup", "olookup") and flag == 1:
             return ("found", tuple(
                 struct.unpack_from("<" + f[-1], out,
                                    b.out_off + 8 * (2 + i))[0]
-                for i, f in enumerate(self.vf)))
+                for i, f in enumerate(vfs)))
         return ("found",) if flag == 1 else ("else",) if flag == 2 \
             else ("flag", flag)
 
@@ -1148,6 +1412,8 @@ def dict_expected1(case, pre, op, nolimit=False):
     ref = dict(pre)
     kind = op[0]
     full = len(ref) >= cfg["size"] and not nolimit
+    if kind in OTHER_OPS:       # the second Dict: `ht` stays as it is
+        return case.other_result(op), ref, False
     if kind in ("piter", "pvalues"):
         if kind == "piter":
             return ("ok", tuple(sorted(dec(kf, k) for k in ref))), ref, False
@@ -1239,17 +1505,28 @@ def explore_dict(cfg, depth, backend_cls, res, sink, python_only=False,
                  on_edge=None):
     be = backend_cls()
     log = []
-    cj = dict(kind="dict", key=list(cfg["key"]), value=list(cfg["value"]),
-              size=cfg["size"], lru=cfg["lru"])
+    cj = dict_cfgj(cfg)
     try:
         with be.context():
             try:
                 case = DictCase(cfg, be, with_program=not python_only)
             except Exception as ex:
-                if isinstance(ex, simkernel.SimTrap):
+                if isinstance(ex, (simkernel.SimTrap, core.Internal)):
                     raise
                 log.append(("rejected", type(ex).__name__))
                 return log
+            if case.hier:
+                # base class instances made in Python, the second Dict's
+                # entry stored through Python
+                if on_edge:
+                    on_edge(cj, (), ("setup",), ("ok",), ())
+                log.append(("setup", case.setup_bad))
+                if case.setup_bad and sink:
+                    sink(cj, "structures read back what was assigned, the "
+                         "second Dict holds its entry", case.setup_bad,
+                         "dict-setup", note="setting the case up (base "
+                         f"class instances: {case.pybase}, second Dict: "
+                         f"{case.other})")
             ordered = be.ordered(case.mapfd)
             canon = (lambda s: tuple(s)) if ordered \
                 else (lambda s: tuple(sorted(s)))
@@ -1268,6 +1545,7 @@ def explore_dict(cfg, depth, backend_cls, res, sink, python_only=False,
                         if level == depth and not case.readonly(op):
                             continue
                         be.restore(case.mapfd, st)
+                        case.restore_other()
                         if cfg["lru"] and res is None and \
                                 canon(be.snapshot(case.mapfd)) != st:
                             # real kernel: an LRU map may evict before it
@@ -1276,6 +1554,7 @@ def explore_dict(cfg, depth, backend_cls, res, sink, python_only=False,
                             continue
                         r = case.apply(op)
                         post = canon(be.snapshot(case.mapfd))
+                        opost = case.other_snapshot()
                         if on_edge:
                             on_edge(cj, st, op, r, seen[st])
                         alts = dict_expected(case, st, op)
@@ -1284,6 +1563,17 @@ def explore_dict(cfg, depth, backend_cls, res, sink, python_only=False,
                         ok = any(r == ar and dict(post) == aref and
                                  len(dict(post)) == len(post)
                                  for ar, aref in alts)
+                        main_ok = ok
+                        if opost != case.other_expected(op):
+                            ok = False
+                            if sink:
+                                sink(dict(cj, state=[list(x) for x in st],
+                                          op=list(op),
+                                          seq=[list(o) for o in seen[st]]),
+                                     case.other_expected(op), opost,
+                                     "dict-other", note="content of the "
+                                     f"second Dict (the one with the base "
+                                     f"classes) after {op}")
                         # the log is what the differential compares; edges
                         # with several acceptable outcomes are not part of it
                         log.append((tuple(sorted(st)), op, r,
@@ -1301,7 +1591,7 @@ def explore_dict(cfg, depth, backend_cls, res, sink, python_only=False,
                                                          seen[st]],
                                                 op=list(op), result=r),
                                            limit=3)
-                        if not ok and sink:
+                        if not main_ok and sink:
                             c2 = dict(cj, state=[list(x) for x in st],
                                       op=list(op),
                                       seq=[list(o) for o in seen[st]])
@@ -1814,6 +2104,82 @@ def dict_configs(ctx):
     return out
 
 
+# who else uses the base classes: (second Dict, base class instances made in
+# Python), each never / before / after the Dict with the derived classes
+SCENARIOS = [(o, p) for o in (None, "before", "after")
+             for p in (None, "before", "after")]
+
+
+def chain_shapes():
+    """(member sizes, split, base level) of Structure inheritance chains:
+    every packed list of two or three members cut into a base class and a
+    subclass in every way, and into base class, subclass and sub-subclass
+    (there the root or the middle class is "the base class")"""
+    out = []
+    for sizes in packed_lists():
+        if len(sizes) == 2:
+            out.append((sizes, (1, 1), 0))
+        elif len(sizes) == 3:
+            out += [(sizes, (1, 2), 0), (sizes, (2, 1), 0),
+                    (sizes, (1, 1, 1), 0), (sizes, (1, 1, 1), 1)]
+    return out
+
+
+def dict_inherit_configs(ctx):
+    """Dict declarations whose Key and / or Value class derives from other
+    Structure classes (chain_shapes), in program classes that have only that
+    Dict, or a second Dict with the base classes declared before / after
+    it, with base class instances made in Python before / after the derived
+    ones (SCENARIOS): every (which side has ancestors, scenario) combination
+    over rotating shapes (thorough: every shape three times); plus a few
+    declarations without any ancestor whose instances are only partly
+    assigned"""
+    shapes, lists = chain_shapes(), packed_lists()
+    combos = [(31, False), (2, False), (31, True), (2, True)]
+    n = len(shapes)
+    step = next(p for p in (7, 11, 13, 17, 19) if n % p)
+    total = 27 if ctx.quick else 3 * n
+    total += -total % 27
+    out = []
+    for t in range(total):
+        side = ("value", "key", "both")[t % 3]
+        other, pybase = SCENARIOS[(t // 3) % 9]
+        size, lru = combos[(t + t // 27) % 4]
+        cfg = dict(size=size, lru=lru)
+        ks, ksplit, kb = shapes[(step * t + ctx.seed) % n]
+        vs, vsplit, vb = shapes[(step * t + 5 * (t // n) + 3 + 2 * ctx.seed)
+                                % n]
+        if side == "value":
+            ks, ksplit = lists[(5 * t + ctx.seed) % len(lists)], None
+        elif side == "key":
+            vs, vsplit = lists[(3 * t + 1 + ctx.seed) % len(lists)], None
+        cfg.update(key=key_fmts(ks), value=value_fmts(vs))
+        if ksplit:
+            cfg.update(ksplit=ksplit, kbase=kb)
+        if vsplit:
+            cfg.update(vsplit=vsplit, vbase=vb)
+        if other:
+            cfg["other"] = other
+        if pybase:
+            cfg["pybase"] = pybase
+        out.append(cfg)
+    # ---- no ancestors, partly assigned instances
+    flat = [(("I", "B"), ("q", "I", "B")), (("Q", "H", "B"), ("B", "B")),
+            ((">I", "<H", "B"), (">I", "!h"))]
+    if not ctx.quick:
+        flat += [(key_fmts(lists[(9 * i + ctx.seed) % len(lists)]),
+                  value_fmts(lists[(4 * i + 7 + ctx.seed) % len(lists)]))
+                 for i in range(9)]
+    for i, (k, v) in enumerate(flat):
+        size, lru = combos[i % 4]
+        cfg = dict(key=k, value=v, size=size, lru=lru, ksplit=(len(k),),
+                   vsplit=(len(v),))
+        if i % 3 == 1:
+            cfg["pybase"] = "before"
+        out.append(cfg)
+    return out
+
+
 def make_sink(res, cap=3):
     counts = {}
 
@@ -1874,7 +2240,7 @@ def compare_logs(cfg, kind, log, rlog, res):
     def table(lg):
         out = {}
         for ent in lg:
-            if ent[0] in ("init", "rejected"):
+            if ent[0] in ("init", "rejected", "setup"):
                 out[ent[0]] = ent[1:]
             elif ent[0] in ("obs0", "obs", "nokeys"):
                 out.setdefault(("obs", ent[1]), set()).add(repr(ent[2:]))
@@ -1914,6 +2280,10 @@ def run(ctx):
         # reproducibly: no edge-by-edge comparison there)
         items.append(("dict", cfg, depth, i % 4 == 0 and
                       not (cfg["lru"] and cfg["size"] < 31)))
+    di = dict_inherit_configs(ctx)
+    for i, cfg in enumerate(di):
+        items.append(("dict", cfg, depth, i % 4 == 1 and
+                      not (cfg["lru"] and cfg["size"] < 31)))
     mc_ = multi_configs(ctx)
     mdepth = 2 if ctx.quick else 3
     for i, m in enumerate(mc_):
@@ -1925,6 +2295,7 @@ def run(ctx):
     res.cov["configurations_run"] = res.cov.pop("evaluations", 0)
     res.cov["evaluations"] = res.cov.get("transitions", 0)
     res.cov["configurations"] = dict(hashvars=len(hv), dicts=len(dc),
+                                     dicts_with_ancestors=len(di),
                                      hashvars_several_maps=len(hm),
                                      several_instances=len(mc_))
     res.cov["bound_completed"] = depth
@@ -1982,6 +2353,19 @@ def run(ctx):
         "further instance with an exception this is counted, not alarmed. "
         "These searches use a reduced alphabet (two keys, plain formats for "
         "hash-map variables) and depth 2 (thorough: 3)",
+        "Structure classes deriving from other Structure classes and "
+        "adding members are legal key / value classes of a Dict (Member."
+        "__set_name__ continues at the inherited `stack`); a member of a "
+        "Structure made in Python that was never assigned holds 0 "
+        "(Structure.__init__ zero-fills), and that is what the program must "
+        "find after the instance was stored; reading a member of an "
+        "instance made in Python (assigned or not) does not raise",
+        "the second Dict of the configurations with ancestors is not part "
+        "of the search state: its one entry is re-established before every "
+        "edge, operations on the first Dict must leave it alone, operations "
+        "on it must leave the first Dict alone; the history that matters "
+        "there (which class was instantiated first in the process) is "
+        "fixed when the case is set up, fresh classes per configuration",
         "states are re-established by writing the kernel map directly "
         "(TheDict and the descriptors keep no state of their own besides "
         "the map descriptor), so equal map contents have equal futures"]
@@ -2005,8 +2389,7 @@ def replay(ctx, rep):
         cfg = hv_cfg_of(c)
         log = explore_hashvars(cfg, depth, SimBackend, res, sink)
     else:
-        cfg = dict(key=tuple(c["key"]), value=tuple(c["value"]),
-                   size=c["size"], lru=c["lru"])
+        cfg = dict_cfg_of(c)
         log = explore_dict(cfg, depth, SimBackend, res, sink)
     want = core.jsonable((c.get("state"), c.get("op"), c.get("inst")))
     print("configuration:", cfg, "-", len(log), "edges explored")
